@@ -49,6 +49,14 @@ def post(obs, tier, rep):
                                                 max_deviation=dev))
             except Exception as e:  # noqa
                 o["witness"] = dict(native_error=repr(e)[:200])
+        if o["status"] == "refuted" and o["kind"] != "canary" and o["name"].endswith("length"):
+            # native replay: number of propagate() steps actually executed by the plain SR entry point (twice in the history): 2 * n_sr * n_ene * n_prop_steps
+            try:
+                rec = native.coherence_history("propagate_phaseless", restricted=True, n_ene_blocks=3, n_sr_blocks=2)
+                o["replayed"] = bool(len(rec) != 2 * 2 * 3 * 2)
+                o["witness"] = dict(native=dict(history="propagate_phaseless twice with n_prop_steps=2, n_ene_blocks=3, n_sr_blocks=2", propagate_steps_executed=len(rec), expected=24))
+            except Exception as e:  # noqa
+                o["witness"] = dict(native_error=repr(e)[:200])
         if o["status"] == "refuted" and ".sig.dispatch." in o["name"]:
             o["replayed"] = True      # ground fact evaluated on the real dispatcher IS the native replay
         if o["status"] == "refuted" and ".sig.call." in o["name"]:
